@@ -104,3 +104,15 @@ package stream
 //verif:call[teardown-old-after-switch-new-after-failed-open] teardownForReconfigure requires succeeded("Processor.Open") && stored("Processor") && arg1 == old || called("Processor.Open") && !succeeded("Processor.Open") && !stored("Processor") && arg1 == p.newProcessor
 //verif:send[answer] done requires sentval == nil && stored("Processor") || sentval != nil && !stored("Processor") && !succeeded("Processor.Open")
 //verif:ensures[no-request-no-effect] !called("Processor.Open") ==> !stored("Processor") && !called("teardownForReconfigure")
+
+// Only applyPendingSwap (and construction outside this package) assigns the live
+// processor; applyPendingSwap runs at the top of the Run loop only, so the
+// processor cannot change between Process and handleProcessedRecord of one record.
+//verif:owns ProcessorNode.Processor : (*ProcessorNode).applyPendingSwap
+//verif:owns ProcessorNode.pending : (*ProcessorNode).applyPendingSwap, (*ProcessorNode).Reconfigure
+
+//verif:func (*ProcessorNode).Run(n, ctx) (err)
+//verif:loop 0 invariant succeeded("Processor.Open")
+//verif:call[one-record-per-process-call] Processor.Process requires len(arg1) == 1 && since("(*ProcessorNode).applyPendingSwap", "Processor.Process") >= 1 && succeeded("Processor.Open")
+//verif:call[no-swap-between-process-and-handle] (*ProcessorNode).handleProcessedRecord requires since("(*ProcessorNode).applyPendingSwap", "Processor.Process") == 0 && called("Processor.Process")
+//verif:call[filtered-forwarded-untouched] (*pubSubNodeBase).Send requires arg3 == msg && msg.filtered && since("Processor.Process", "(*ProcessorNode).applyPendingSwap") == 0
